@@ -60,7 +60,9 @@ def run(c):
     S.must_break(c, "Pre_RetainDropsNewer", {"NoBad", "OperatorsKeepNewest"}, MaxLen=1000, StartId=1, Acts=S.GOOD)
     # 3. transition cover of the publication / crash graph, replayed with real DKVs
     for start in ((2, 14) if quick else (2, 14, 61, 4094)):
-        behs, cs = S.cover(c, "publication schedules and crash points", MaxLen=1000, StartId=start, IdSpan=3, MaxInFlight=3, MaxRestarts=2, Acts=S.GOOD)
+        # (quick: the second id range with one restart less -- the schedules are those of the first, only the file names differ)
+        behs, cs = S.cover(c, "publication schedules and crash points", MaxLen=1000, StartId=start, IdSpan=3, MaxInFlight=3,
+                           MaxRestarts=1 if quick and start != 2 else 2, Acts=S.GOOD)
         S.replay(c, behs, cs, "cover replay", WithDkv=True)
     behs, cs = S.cover(c, "full alphabet", MaxLen=7 if quick else 8, StartId=2)
     S.replay(c, behs, cs, "cover replay", WithDkv=True)
